@@ -328,3 +328,94 @@ M('c12_suspect_twice', ['C12', 'C11'], ['C12-R5'], 'a second suspicion timer is 
   (LIB, '                if is_active_now {\n                    // We check for summary.apply_successful prior to logging', '                if !apply_successful {\n                    runtime.submit_after(Timer::ChangeSuspectToDown { member_id: failed.id().clone(), incarnation: failed.incarnation(), token: self.timer_token }, self.config.suspect_to_down_after);\n                }\n                if is_active_now {\n                    // We check for summary.apply_successful prior to logging'))
 M('c12_probe_number_not_advanced', ['C12'], ['C12-R5'], 'probe number only advanced every other round',
   (PROBE, '        self.probe_number = self.probe_number.wrapping_add(1);', '        if self.indirect.capacity() > 0 {\n            self.probe_number = self.probe_number.wrapping_add(1);\n        }'))
+
+# ---------------------------------------------------------------- C13
+M('c13_undead_keeps_token', ['C13', 'C03'], ['C13-R1'], 'becoming defunct does not start a new epoch: old timers stay effective',
+  (LIB, "        // handling events that aren't relevant anymore.\n        self.timer_token = self.timer_token.wrapping_add(1);\n", "        // handling events that aren't relevant anymore.\n"))
+M('c13_idle_keeps_probe', ['C13', 'C12'], ['C13-R1'], 'going idle keeps the in-flight probe state',
+  (LIB, '        self.timer_token = self.timer_token.wrapping_add(1);\n        self.probe.clear();\n\n        runtime.notify(Notification::Idle);', '        self.timer_token = self.timer_token.wrapping_add(1);\n\n        runtime.notify(Notification::Idle);'))
+M('c13_gossip_timer_no_token_check', ['C13'], ['C13-R2'], 'periodic gossip timers of older epochs are honoured (duplicated loops)',
+  (LIB, '''                // Exact same thing as PeriodicAnnounce, just using different settings / messages
+                if token == self.timer_token && self.connection_state == ConnectionState::Connected''', '''                // Exact same thing as PeriodicAnnounce, just using different settings / messages
+                if token <= self.timer_token && self.connection_state == ConnectionState::Connected'''))
+M('c13_indirect_probe_marks_before_token', ['C13'], ['C13-R2'], 'a stale SendIndirectProbe still marks the indirect stage as reached',
+  (LIB, '''                if token != self.timer_token {
+                    #[cfg(feature = "tracing")]
+                    tracing::trace!("Invalid timer token");
+                    return Ok(());
+                }
+
+                // Bookkeeping: This is how we verify that the probe code
+                // is running correctly. If we reach the end of the
+                // probe and this hasn't happened, we know something is
+                // wrong.
+                self.probe.mark_indirect_probe_stage_reached();
+''', '''                self.probe.mark_indirect_probe_stage_reached();
+                if token != self.timer_token {
+                    return Ok(());
+                }
+'''))
+M('c13_announce_rearm_after_send', ['C13'], ['C13-R3'], 'periodic announce re-arms after sending: a send error kills the loop',
+  (LIB, '''                        runtime.submit_after(
+                            Timer::PeriodicAnnounce(self.timer_token),
+                            params.frequency,
+                        );
+                        // And send the messages
+                        self.choose_and_send(params.num_members.get(), Message::Announce, runtime)?;''', '''                        let frequency = params.frequency;
+                        self.choose_and_send(params.num_members.get(), Message::Announce, &mut runtime)?;
+                        runtime.submit_after(Timer::PeriodicAnnounce(self.timer_token), frequency);'''))
+M('c13_gossip_rearm_only_when_busy', ['C13'], ['C13-R3'], 'periodic gossip stops for good once the backlog is empty',
+  (LIB, '''                        runtime.submit_after(
+                            Timer::PeriodicGossip(self.timer_token),
+                            params.frequency,
+                        );
+
+                        // Only actually gossip if there are updates to send
+                        if !self.updates.is_empty() || !self.custom_broadcasts.is_empty() {''', '''                        // Only actually gossip if there are updates to send
+                        if !self.updates.is_empty() || !self.custom_broadcasts.is_empty() {
+                            runtime.submit_after(
+                                Timer::PeriodicGossip(self.timer_token),
+                                params.frequency,
+                            );'''))
+M('c13_probe_not_rearmed_on_incomplete', ['C13'], ['C13-R3'], 'probe loop dies when the cycle was incomplete',
+  (LIB, '''        runtime.submit_after(
+            Timer::ProbeRandomMember(self.timer_token),
+            self.config.probe_period,
+        );
+
+        if probe_was_incomplete {
+            Err(Error::IncompleteProbeCycle)''', '''        if probe_was_incomplete {
+            return Err(Error::IncompleteProbeCycle);
+        }
+        runtime.submit_after(
+            Timer::ProbeRandomMember(self.timer_token),
+            self.config.probe_period,
+        );
+
+        if probe_was_incomplete {
+            Err(Error::IncompleteProbeCycle)'''))
+M('c13_connected_arms_gossip_twice', ['C13'], ['C13-R3'], 'periodic gossip armed twice when announce is also configured',
+  (LIB, '''        if let Some(ref params) = self.config.periodic_announce {
+            runtime.submit_after(Timer::PeriodicAnnounce(self.timer_token), params.frequency);
+        }''', '''        if let Some(ref params) = self.config.periodic_announce {
+            runtime.submit_after(Timer::PeriodicAnnounce(self.timer_token), params.frequency);
+            if let Some(ref g) = self.config.periodic_gossip {
+                runtime.submit_after(Timer::PeriodicGossip(self.timer_token), g.frequency);
+            }
+        }'''))
+M('c13_set_config_allows_enabling_gossip', ['C13'], ['C13-R4'], 'set_config lets periodic gossip be enabled at runtime (no timer exists for it)',
+  (LIB, '            || (self.config.periodic_gossip.is_none() && config.periodic_gossip.is_some())\n', ''))
+M('c13_set_config_allows_rtt_change', ['C13'], ['C13-R4'], 'set_config accepts a different probe_rtt',
+  (LIB, '            || self.config.probe_rtt != config.probe_rtt\n', ''))
+M('c13_set_config_assigns_before_validating', ['C13', 'C17'], ['C13-R4', 'C17-R2'], 'set_config replaces the config and then validates',
+  (LIB, '''        if self.config.probe_period != config.probe_period
+            || self.config.probe_rtt != config.probe_rtt''', '''        let config = core::mem::replace(&mut self.config, config);
+        if self.config.probe_period != config.probe_period
+            || self.config.probe_rtt != config.probe_rtt'''))
+M('c13_seq_collision', ['C13'], ['C13-R5'], 'two timer kinds share a sequence number',
+  (RUNTIME, '            Self::PeriodicAnnounceDown(_) => 6,', '            Self::PeriodicAnnounceDown(_) => 5,'))
+M('c13_seq_probe_before_indirect', ['C13'], ['C13-R5'], 'ProbeRandomMember sorts before SendIndirectProbe',
+  (RUNTIME, '            } => 0,\n            Self::ProbeRandomMember(_) => 1,', '            } => 1,\n            Self::ProbeRandomMember(_) => 0,'))
+M('c13_incomplete_never_reported', ['C13'], ['C13-R6'], 'validate() always true: skipped indirect stage goes unnoticed',
+  (PROBE, '        self.direct.is_none()\n            // Otherwise it\'s only valid if the indirect\n            // probing stage has been reached\n            || self.reached_indirect_probe_stage',
+   '        self.direct.is_none() || self.reached_indirect_probe_stage || self.indirect.is_empty()'))
